@@ -218,6 +218,9 @@ Step ==
                    res == IF same THEN Pub(0) ELSE Alu(ins.fn, ry[1], rx[1])
                    s2 == Write(ry[2], ins.b, res, ins.w, ln)
                IN Commit([s2 EXCEPT !.fl = [k |-> "alu", a |-> res, b |-> Pub(0)]], pc + 1) /\ UNCHANGED nsb
+          [] ins.cl = "prefetch" ->   \* no architectural effect; the address it touches must not depend on secrets
+               LET b == MBase(s, ins.a)
+               IN Commit(IF b.t = "sec" THEN Err(s, ln, "C09 secret-dependent address") ELSE s, pc + 1) /\ UNCHANGED nsb
           [] ins.cl = "cmov" ->       \* CMOVcc / SETcc: pure data flow from the operands AND the flags
                LET ra == IF ins.a.k = "n" THEN <<Pub(0), s>> ELSE Read(s, ins.a, ins.w, ln)
                    rb == Read(ra[2], ins.b, ins.w, ln)
